@@ -1,18 +1,36 @@
 (* C20 — flat-integer wire format: decoding of inputs and the four entry points of the driver
    (extracted by Extract.v; kept in the library so that theorems can be stated about them).
 
-   input  = nsecs (merge? default-tree)*   nnodes (nlabels (key value)* )*   nops op*
-   op     = kind cmap        kind 0 Create, 1 Update(Data changed)              -> OSync
-                             kind 2 Update(Data equal) -> OSame, 3 Delete -> ODelete, 4 other name -> OOther
+   input  = nsecs (mflag bwidx default-tree)*   nnodes node*   strict   nops op*
+            mflag 0/1 = sd_merge; bwidx = index of the field the node's bandwidth annotation overrides, -1 none
+   node   = 0                                        the Node object does not exist
+          | 1 nlabels (key value)* bwkind bwval bwstyle   bwkind 0 no annotation, 1 quantity of value bwval,
+                                                     2 text that is not a quantity (bwstyle picks the spelling)
+   op     = kind cmap   (kind 4: kind variant cmap)
+                             kind 0 Create, 1 Update(Data changed)              -> OSync
+                             kind 2 Update(Data equal) -> OSame, 3 Delete -> ODelete,
+                             kind 4 variant: ConfigMap of another name / namespace, other kind, Generic -> OOther
                              kind 5 IsCfgAvailable, ConfigMap in the informer   -> OAvail (Some _)
           | 6                IsCfgAvailable, ConfigMap not found                -> OAvail None
-            (every op is followed by Reconcile of every probe node)
-   cmap   = nsections (status style payload?)*   status 0 absent, 1 malformed text (no payload),
-                             2 type error (payload, rendered with a wrongly typed field), 3 value
+          | 7                controller restart                                  -> ORestart
+          | 8 i node         Node i created / updated / deleted                 -> ONode
+          | 9 i              event for Node i, no change                        -> ONodeEv
+          | 10 i             NodeSLO i deleted by a third party                  -> OSloDel
+          | 11 i style       NodeSLO i overwritten by a third party              -> OSloEdit
+            (strict = 0: every op is followed by Reconcile of every probe node;
+             strict = 1: only the requests the event handlers enqueue are reconciled)
+   cmap   = nsections section*
+   section= 0 style                                  absent
+          | 1 style                                  malformed text (style picks one; no payload)
+          | 2 style frame payload                    type error (payload rendered with a wrongly typed member)
+          | 3 style frame payload                    a JSON document rendered from the payload, with the
+                                                     characters of [frame] before and after it
+   frame  = nlead c* ntrail c*                       0..3 = space \n \t \r; everything else is not white space
    payload= cluster-tree nentries (selector tree)*
    selector = 0 | 1 nreq (key op nvals val* )*
    tree   = the encoding [Model.enc]
-   observable = after every op, for every node, for every section: [enc] of the DELIVERED value (NodeSLO.Spec) *)
+   observable = after every op, for every node: -888888 if it has no NodeSLO, else for every section
+                [enc] of the DELIVERED value (NodeSLO.Spec) *)
 From Coq Require Import List ZArith Bool.
 From Verif Require Import Lib.Wire C20.Model C20.Spec.
 Import ListNotations.
@@ -60,24 +78,62 @@ Definition dec_entry (l : list Z) : entry * list Z :=
   let '(s, r) := dec_sel l in
   let '(c, r') := dec_tree r in (mkEntry s c, r').
 
+Definition dec_frame (l : list Z) : (list Z * list Z) * list Z :=
+  let '(ld, r) := take_list l in
+  let '(tr, r') := take_list r in ((ld, tr), r').
+
 Definition dec_section (l : list Z) : section_in * list Z :=
   match l with
   | st :: _style :: t =>
       if (st =? 2) || (st =? 3) then
-        let '(c, r) := dec_tree t in
+        let '(fr, r0) := dec_frame t in
+        let '(c, r) := dec_tree r0 in
         let '(es, r') := decode_seq dec_entry r in
-        ((if st =? 3 then SValue c es else SMalformed), r')
+        ((if st =? 3 then parse_frame (fst fr) (snd fr) (SValue c es) else SMalformed), r')
       else ((if st =? 0 then SAbsent else SMalformed), t)
   | _ => (SAbsent, [])
   end.
 
 Definition dec_cmap (l : list Z) : cmap * list Z := decode_seq dec_section l.
 
+Definition dec_labels (l : list Z) : labels * list Z := decode_seq dec_kv l.
+
+Definition dec_bw (l : list Z) : bw * list Z :=
+  match l with
+  | k :: v :: _style :: t => ((if k =? 0 then BwNone else if k =? 1 then BwVal v else BwBad), t)
+  | _ => (BwNone, [])
+  end.
+
+Definition dec_node (l : list Z) : option node * list Z :=
+  match l with
+  | e :: t =>
+      if e =? 0 then (None, t)
+      else let '(ls, r) := dec_labels t in
+           let '(b, r') := dec_bw r in (Some (mkNode ls b), r')
+  | [] => (None, [])
+  end.
+
 Definition dec_op (l : list Z) : op * list Z :=
   match l with
   | k :: t =>
       if k =? 6 then (OAvail None, t)
-      else let '(c, r) := dec_cmap t in
+      else if k =? 7 then (ORestart, t)
+      else if k =? 8 then
+        match t with
+        | i :: t' => let '(nd, r) := dec_node t' in (ONode (Z.to_nat i) nd, r)
+        | [] => (OOther, [])
+        end
+      else if (k =? 9) || (k =? 10) then
+        match t with
+        | i :: t' => ((if k =? 9 then ONodeEv (Z.to_nat i) else OSloDel (Z.to_nat i)), t')
+        | [] => (OOther, [])
+        end
+      else if k =? 11 then
+        match t with
+        | i :: _style :: t' => (OSloEdit (Z.to_nat i), t')
+        | _ => (OOther, [])
+        end
+      else let '(c, r) := dec_cmap (if k =? 4 then tl t else t) in
            ((if (k =? 0) || (k =? 1) then OSync c
              else if k =? 2 then OSame c
              else if k =? 3 then ODelete
@@ -87,17 +143,17 @@ Definition dec_op (l : list Z) : op * list Z :=
 
 Definition dec_secdef (l : list Z) : secdef * list Z :=
   match l with
-  | mflag :: t => let '(c, r) := dec_tree t in (mkSec (zb mflag) c, r)
-  | [] => (mkSec true (Obj None), [])
+  | mflag :: bwi :: t =>
+      let '(c, r) := dec_tree t in
+      (mkSec (zb mflag) (if bwi <? 0 then None else Some (Z.to_nat bwi)) c, r)
+  | _ => (mkSec true None (Obj None), [])
   end.
-
-Definition dec_labels (l : list Z) : labels * list Z := decode_seq dec_kv l.
 
 Definition decode (inp : list Z) : input :=
   let '(sds, r1) := decode_seq dec_secdef inp in
-  let '(nodes, r2) := decode_seq dec_labels r1 in
-  let '(ops, _) := decode_seq dec_op r2 in
-  mkInput sds nodes ops.
+  let '(nodes, r2) := decode_seq dec_node r1 in
+  let '(ops, _) := decode_seq dec_op (tl r2) in
+  mkInput sds nodes (zb (hdZ r2)) ops.
 
 Definition run_case (inp : list Z) : list Z := enc_obs (run faithful (decode inp)).
 
@@ -120,14 +176,16 @@ Definition koord_schemas : list sch := [s_threshold; s_qos; s_burst; s_system; s
 (* non-trivial: the case is inside the hypothesis of the theorems (every tree is a value of the
    section's Go type) and some applied ConfigMap has a well-formed section with a node entry that
    selects one of the probe nodes (so all three layers take part) *)
-Definition sec_selects (nodes : list labels) (s : section_in) : bool :=
+Definition sec_selects (nodes : list node) (s : section_in) : bool :=
   match s with
-  | SValue _ es => existsb (fun ls => match first_match ls es with Some _ => true | None => false end) nodes
+  | SValue _ es => existsb (fun nd => match first_match (n_labels nd) es with Some _ => true | None => false end) nodes
   | _ => false
   end.
+
+Definition all_nodes (i : input) : list node := node_values (in_nodes i) (in_ops i).
 
 Definition nontrivial_case (inp : list Z) : bool :=
   let i := decode inp in
   wf_input koord_schemas i
-  && existsb (fun oc => match oc with Some c => existsb (sec_selects (in_nodes i)) c | None => false end)
+  && existsb (fun oc => match oc with Some c => existsb (sec_selects (all_nodes i)) c | None => false end)
              (eff_syncs false None (in_ops i)).
